@@ -466,6 +466,7 @@ func r16_4(c *Ctx, a *c16anchors) {
 	// function-body helpers: an unexported function, called only by the two function parsers, that pushes the function
 	// context once and then parses the block; a call to it stands for the push in its callers.
 	bodyHelpers := map[*ssa.Function]bool{}
+	helperGuards := map[*ssa.Function]bool{} // the helper itself checks '{' before its push
 	for _, f := range c.libFunctions("parser") {
 		if _, isRole := roleFns[f]; isRole || f.Signature.Recv() == nil {
 			continue
@@ -487,13 +488,27 @@ func r16_4(c *Ctx, a *c16anchors) {
 		if k, isK := constInt64(unwrap(pushes[0].Call.Args[1])); !isK || k != a.fnCtx {
 			continue
 		}
-		// the block it returns is the one parsed under the push
+		// the block it returns is the one parsed under the push (its other results, if any, were parsed before the
+		// push: no other parse call is reachable after it)
 		retOK := true
 		allInstrs(f, func(_ *ssa.BasicBlock, _ int, in ssa.Instruction) {
 			if ret, ok := in.(*ssa.Return); ok {
 				for _, r := range ret.Results {
-					if unwrapDeferResult(r) != ssa.Value(blocks[0]) {
-						retOK = false
+					if !namedIs(r.Type(), "ast", "BlockStatement") {
+						continue
+					}
+					for _, v := range resultValues(r) {
+						if v != ssa.Value(blocks[0]) && !isNilConst(v) {
+							retOK = false
+						}
+					}
+				}
+			}
+			if call, ok := in.(*ssa.Call); ok && call != blocks[0] && call != pushes[0] {
+				cal := staticCallee(call)
+				if cal != nil && cal != a.pop && cal.Pkg == f.Pkg && cal.Signature.Results().Len() > 0 && instrReachableAfter(pushes[0], call) {
+					if rt := cal.Signature.Results().At(0).Type(); nodeLike(rt) {
+						retOK = false // something else is parsed inside the function context
 					}
 				}
 			}
@@ -515,6 +530,21 @@ func r16_4(c *Ctx, a *c16anchors) {
 			})
 		}
 		if onlyRoles {
+			for _, b := range f.Blocks {
+				iff := blockIf(b)
+				if iff == nil {
+					continue
+				}
+				cond, edge := iff.Cond, true
+				if u, ok := cond.(*ssa.UnOp); ok && u.Op == token.NOT {
+					cond, edge = u.X, false
+				}
+				if call, ok := cond.(*ssa.Call); ok && staticCallee(call) == expect {
+					if k, ok := constInt64(unwrap(call.Call.Args[1])); ok && k == lbrace && condEdgeDominates(b, edge, pushes[0].Block()) {
+						helperGuards[f] = true
+					}
+				}
+			}
 			bodyHelpers[f] = true
 			c.ok(fnName(f)+": function-body helper", pushes[0].Pos(), "pushes FunctionContext once, then parses and returns the block; called only by the function parsers")
 		}
@@ -584,6 +614,9 @@ func r16_4(c *Ctx, a *c16anchors) {
 						}
 					}
 				}
+			}
+			if viaHelper && helperGuards[staticCallee(push)] {
+				guarded = true // checked inside the helper, on the only way to its push
 			}
 			c.check(guarded, key+": push after '{' check", push.Pos(), "the push is reached only through the success edge of ExpectToken(LBRACE)", "the function context must be pushed only after '{' has been checked (ExpectToken(LBRACE) success edge)")
 			// body parse after the push; name / parameters before it
@@ -880,4 +913,23 @@ func reachesStmtFn(g *ssa.Function, a *c16anchors, depth int) bool {
 		}
 	})
 	return found
+}
+
+// resultValues: the values a returned result can have — the value itself, or, for a function with deferred calls
+// (go/ssa spills its results into cells), every value stored into the result's cell.
+func resultValues(v ssa.Value) []ssa.Value {
+	if u, ok := v.(*ssa.UnOp); ok && u.Op == token.MUL {
+		if al, ok := u.X.(*ssa.Alloc); ok {
+			var out []ssa.Value
+			for _, r := range *al.Referrers() {
+				if st, ok := r.(*ssa.Store); ok && st.Addr == ssa.Value(al) {
+					out = append(out, st.Val)
+				}
+			}
+			if len(out) > 0 {
+				return out
+			}
+		}
+	}
+	return []ssa.Value{v}
 }
